@@ -186,7 +186,10 @@ class Effects:
         this field" attribute a helper's write sites to these roots, so extracting a helper is not a new writer."""
         def private(k):
             name = k.split('#')[0].rsplit('.', 1)[-1]
-            return name.startswith('_') and not name.startswith('__')
+            if name.startswith('_') and not name.startswith('__'):
+                return True
+            f = self.prog.functions.get(k.split('#')[0]) if hasattr(self.prog, 'functions') else None
+            return f is not None and '#' not in k and self.w.is_new_function(f)
         k0 = self.key(fn)
         if not private(k0):
             return {k0}
